@@ -38,14 +38,14 @@ import (
 func init() { commands["C12"] = runC12 }
 
 type c12Input struct {
-	Seed    uint64 `json:"seed"`
-	NDecl   int    `json:"ndecl"`
-	NLook   int    `json:"nlook"`
-	NCache  int    `json:"ncache"`  // undeclared names present only in the start-up cache
-	Readers int    `json:"readers"` // reader goroutines
-	Ops     []int  `json:"ops"`     // driver actions: 0 change+refresh 1 hold 2 failing 3 expiry 4 lookup 5 burst of changes 6/7 failing cache 8 watch window 9 updater on a looked-up name
-	Procs   int    `json:"procs"`   // GOMAXPROCS of the child
-	CloseFail bool `json:"close_fail,omitempty"` // the final cache flush at Close fails
+	Seed      uint64 `json:"seed"`
+	NDecl     int    `json:"ndecl"`
+	NLook     int    `json:"nlook"`
+	NCache    int    `json:"ncache"`               // undeclared names present only in the start-up cache
+	Readers   int    `json:"readers"`              // reader goroutines
+	Ops       []int  `json:"ops"`                  // driver actions: 0 change+refresh 1 hold 2 failing 3 expiry 4 lookup 5 burst of changes 6/7 failing cache 8 watch window 9 updater on a looked-up name
+	Procs     int    `json:"procs"`                // GOMAXPROCS of the child
+	CloseFail bool   `json:"close_fail,omitempty"` // the final cache flush at Close fails
 }
 
 // ---------------------------------------------------------------- values
@@ -111,14 +111,14 @@ type c12Inst struct {
 }
 
 type c12Svc struct {
-	mu       sync.Mutex
-	active   map[string]uint32
-	installs []c12Inst         // serve order (deduplicated against the latest entry of the same name)
-	latest   map[string]uint32 // latest entry of installs per name
-	served   atomic.Int64      // len(installs)
-	hold     chan struct{}     // non-nil: requests block until it is closed
-	blocked  atomic.Int64      // requests currently blocked on hold
-	failing  atomic.Bool
+	mu        sync.Mutex
+	active    map[string]uint32
+	installs  []c12Inst         // serve order (deduplicated against the latest entry of the same name)
+	latest    map[string]uint32 // latest entry of installs per name
+	served    atomic.Int64      // len(installs)
+	hold      chan struct{}     // non-nil: requests block until it is closed
+	blocked   atomic.Int64      // requests currently blocked on hold
+	failing   atomic.Bool
 	top       map[string]uint32 // highest version ever created per name
 	rollbacks int
 }
@@ -347,16 +347,21 @@ func (r *c12Reader) run(sh *c12Shared, floor *atomic.Int64, stop *atomic.Bool, r
 // ---------------------------------------------------------------- one scenario (child process)
 
 type c12Result struct {
-	Installs []c12Inst   `json:"-"`
-	Coq      string      `json:"coq"`
-	AltCoq   string      `json:"alt_coq"` // the same with one observed Updater take flipped (self-test)
-	Direct   string      `json:"direct"`
+	Installs []c12Inst        `json:"-"`
+	Coq      string           `json:"coq"`
+	AltCoq   string           `json:"alt_coq"` // the same with one observed Updater take flipped (self-test)
+	Direct   string           `json:"direct"`
 	Stats    map[string]int64 `json:"stats"`
 }
 
+// c12Bound: how long a step that must not block may take in real time before it is reported as blocked.  The
+// steps take microseconds; the bound is generous because the check may share the machine with other checks
+// (a 3-5 s bound was hit once in about 900 runs, under a load average near 30, with the race detector on).
+const c12Bound = 20 * time.Second
+
 func c12Child(in c12Input) c12Result {
 	res := c12Result{Stats: map[string]int64{}}
-	time.AfterFunc(20*time.Second, func() {
+	time.AfterFunc(120*time.Second, func() { // far beyond a scenario's two seconds, also on a loaded machine
 		fmt.Fprintln(os.Stderr, "C12-WATCHDOG: scenario did not finish (a step blocked)")
 		os.Exit(67)
 	})
@@ -449,9 +454,9 @@ func c12Child(in c12Input) c12Result {
 		select {
 		case err := <-ch:
 			return err
-		case <-time.After(5 * time.Second):
+		case <-time.After(c12Bound):
 			if res.Direct == "" {
-				res.Direct = "Refresh blocked: a poll did not complete within 5 s"
+				res.Direct = "Refresh blocked: a poll did not complete within the bound"
 			}
 			return errors.New("blocked")
 		}
@@ -482,7 +487,7 @@ func c12Child(in c12Input) c12Result {
 		case got := <-ch:
 			x.u = got.u
 			return x, got.err
-		case <-time.After(5 * time.Second):
+		case <-time.After(c12Bound):
 			return nil, errors.New("NewUpdater blocked")
 		}
 	}
@@ -519,7 +524,7 @@ func c12Child(in c12Input) c12Result {
 			case tick.ch <- time.Now():
 				select {
 				case <-tick.done:
-				case <-time.After(5 * time.Second):
+				case <-time.After(c12Bound):
 				}
 			case <-time.After(2 * time.Millisecond):
 			}
@@ -543,7 +548,7 @@ func c12Child(in c12Input) c12Result {
 		for i, r := range readers {
 			start[i] = r.count.Load()
 		}
-		deadline := time.Now().Add(3 * time.Second)
+		deadline := time.Now().Add(c12Bound)
 		for _, r := range readers {
 			i := r.id
 			for r.count.Load() < start[i]+20 && r.bad.Load() == nil {
@@ -557,7 +562,7 @@ func c12Child(in c12Input) c12Result {
 		return true
 	}
 	waitBlocked := func() bool {
-		deadline := time.Now().Add(3 * time.Second)
+		deadline := time.Now().Add(3 * time.Second) // not a failure condition: "no request was made" is an outcome
 		for svc.blocked.Load() == 0 {
 			if time.Now().After(deadline) {
 				return false
@@ -756,7 +761,7 @@ func c12Child(in c12Input) c12Result {
 				select {
 				case r := <-ch:
 					return r, true
-				case <-time.After(5 * time.Second):
+				case <-time.After(c12Bound):
 					return lr{}, false
 				}
 			}
@@ -841,7 +846,7 @@ func c12Child(in c12Input) c12Result {
 	go func() { st.Close(); close(closed) }()
 	select {
 	case <-closed:
-	case <-time.After(3 * time.Second):
+	case <-time.After(c12Bound):
 		if res.Direct == "" {
 			res.Direct = "Close blocked"
 		}
@@ -863,7 +868,7 @@ func c12Child(in c12Input) c12Result {
 	go func() { wgR.Wait(); close(readersDone) }()
 	select {
 	case <-readersDone:
-	case <-time.After(2 * time.Second):
+	case <-time.After(c12Bound):
 		// readers stuck inside a handle: report what is known and do not touch their logs
 		if res.Direct == "" {
 			res.Direct = "read blocked: a reader did not come back from a handle call"
